@@ -237,7 +237,8 @@ impl SystemState {
                         .map(|p| p.id)
                         .max()
                         .unwrap_or_else(|| panic!("No partition found"));
-                    for i in 0..command.partitions_count {
+                    let partitions_count = command.partitions_count.min(last_partition_id);
+                    for i in 0..partitions_count {
                         topic.partitions.remove(&(last_partition_id - i));
                     }
                 }
